@@ -386,6 +386,14 @@ pub fn execute(scn: &Scn, property: &str) -> RunOutcome {
                         ),
                         format!("history={history} op={op_code}"),
                     ));
+                } else if let Some(d) = reference_mismatch(spec, &model, &now.values, &mut out) {
+                    v = Some(viol(
+                        "C05",
+                        "values-vs-documented-timeline-semantics",
+                        step,
+                        format!("after {op:?} (history {history}): {d}"),
+                        format!("history={history} op={op_code}"),
+                    ));
                 } else if now.ended != model.is_ended_differential() {
                     v = Some(viol(
                         "C05",
@@ -690,6 +698,38 @@ pub fn execute(scn: &Scn, property: &str) -> RunOutcome {
     }
     out.obs_hash = h.0;
     out
+}
+
+/// Independent check of "the current state's timeline evaluated at the time spent in that state,
+/// started from the values held when the state was entered": the reference evaluator in
+/// `simmodel::oracle` (documented semantics, no mina frame lookup) against the observed values.
+fn reference_mismatch(spec: &AnimSpec, model: &Model, observed: &Vals, out: &mut RunOutcome) -> Option<String> {
+    let m = spec.states[model.cur].as_ref()?;
+    let t = model.tau.as_secs_f32();
+    if !(t < 1.0e6) {
+        return None;
+    }
+    let r = oracle::ref_eval(m, model.entry[model.cur].as_ref(), t);
+    for prop in 0..4 {
+        if let Some(rp) = &r[prop] {
+            if rp.near_boundary {
+                out.count("probe.reference_skipped_near_phase_boundary");
+                continue;
+            }
+            out.count("probe.reference_value_checked");
+            let actual = oracle::get_prop(observed, prop);
+            if !oracle::ref_matches(actual, rp, 1e-4) {
+                return Some(format!(
+                    "property {} is {actual:?}; the documented timeline semantics give {} for state {} at time {t}s started from {}",
+                    PROP_NAMES[prop],
+                    rp.value,
+                    model.cur,
+                    model.entry[model.cur].as_ref().map(vals_brief).unwrap_or_else(|| "-".into())
+                ));
+            }
+        }
+    }
+    None
 }
 
 // -------------------------------------------------------------------------------------------------
